@@ -48,14 +48,24 @@ type store interface {
 	roundTrip() (store, error)
 }
 
+// key hands the key to the store in a scratch buffer that is overwritten right after the
+// call returns: a store must not keep references into its caller's key buffer.
+func key(k string, f func([]byte)) {
+	b := []byte(k)
+	f(b)
+	for i := range b {
+		b[i] = '~'
+	}
+}
+
 type topicsStore struct{ s topics.Store }
 
-func (t topicsStore) ins(k, v string) { t.s.Insert([]byte(k), []byte(v)) }
-func (t topicsStore) rm(k string)     { t.s.Remove([]byte(k)) }
+func (t topicsStore) ins(k, v string) { key(k, func(b []byte) { t.s.Insert(b, []byte(v)) }) }
+func (t topicsStore) rm(k string)     { key(k, func(b []byte) { t.s.Remove(b) }) }
 func (t topicsStore) app(k, v string) { panic("no append on topics store") }
 func (t topicsStore) get(k string) []string {
 	var out [][]byte
-	t.s.Match([]byte(k), &out)
+	key(k, func(b []byte) { t.s.Match(b, &out) })
 	return nonEmpty(out)
 }
 func (t topicsStore) count() (int, bool) { return t.s.Count(), true }
@@ -79,15 +89,19 @@ func (t topicsStore) roundTrip() (store, error) {
 type subsStore struct{ s subscriptions.Tree }
 
 func (t subsStore) ins(k, v string) {
-	t.s.Upsert([]byte(k), func([]byte) []byte { return []byte(v) })
+	key(k, func(b []byte) { t.s.Upsert(b, func([]byte) []byte { return []byte(v) }) })
 }
-func (t subsStore) rm(k string) { t.s.Upsert([]byte(k), func([]byte) []byte { return nil }) }
+func (t subsStore) rm(k string) {
+	key(k, func(b []byte) { t.s.Upsert(b, func([]byte) []byte { return nil }) })
+}
 func (t subsStore) app(k, v string) {
-	t.s.Upsert([]byte(k), func(old []byte) []byte { return append(append([]byte{}, old...), v...) })
+	key(k, func(b []byte) {
+		t.s.Upsert(b, func(old []byte) []byte { return append(append([]byte{}, old...), v...) })
+	})
 }
 func (t subsStore) get(k string) []string {
 	var out [][]byte
-	t.s.Walk([]byte(k), func(b []byte) { out = append(out, b) })
+	key(k, func(b []byte) { t.s.Walk(b, func(x []byte) { out = append(out, x) }) })
 	return nonEmpty(out)
 }
 func (t subsStore) count() (int, bool) { return 0, false }
